@@ -210,7 +210,7 @@ func TestC08Env(t *testing.T) {
 			Alternatives: func(ev vh.EnvEvent, plan []vh.Deviation) []string {
 				switch kindOf(ev.Key) {
 				case "data":
-					return pick(ev.Menu, "refuse", "lost", "gkfail:", "cut:", "stop-n")
+					return pick(ev.Menu, "refuse", "lost", "gkfail:", "cut:", "unavail", "stop-n")
 				case "recovery":
 					return pick(ev.Menu, "refuse", "lost", "stop-n")
 				case "persist":
@@ -287,7 +287,7 @@ func faultAlts(ev vh.EnvEvent, restarts bool) []string {
 	var out []string
 	switch kindOf(ev.Key) {
 	case "data":
-		out = pick(ev.Menu, "refuse", "lost", "gkfail:", "cut:", "corrupt:")
+		out = pick(ev.Menu, "refuse", "lost", "gkfail:", "cut:", "corrupt:", "unavail")
 	case "recovery", "validate":
 		out = pick(ev.Menu, "refuse", "lost")
 	case "partials":
